@@ -189,11 +189,13 @@ def check_case(spec: dict) -> dict:
         sub_runs = []
         hit = [d for d in spec["dirs"] if any(M.glob_matches(g, f"{base}/{d}") for g in globs)][:1]
         free = [d for d in spec["dirs"] if not any(M.glob_matches(g, f"{base}/{'/'.join(d.split('/')[:i])}") for g in globs
-                                                   for i in range(1, d.count("/") + 2))][:1]
+                                                   for i in range(1, d.count("/") + 2))
+                and not any(M.glob_matches(g, base) for g in globs)][:1]
         # ... and a directory that lies below an excluded one without matching itself (everything below an excluded
         # directory contributes nothing, whether or not the scan starts there)
         below = [d for d in spec["dirs"] if d not in hit and not any(M.glob_matches(g, f"{base}/{d}") for g in globs)
-                 and any(M.glob_matches(g, f"{base}/{'/'.join(d.split('/')[:i])}") for g in globs for i in range(1, d.count("/") + 1))][:1]
+                 and (any(M.glob_matches(g, f"{base}/{'/'.join(d.split('/')[:i])}") for g in globs for i in range(1, d.count("/") + 1))
+                      or any(M.glob_matches(g, base) for g in globs))][:1]  # ... or below the excluded root directory itself
         for d in hit + free + below:
             sub_runs.append((d, d in hit or d in below, scan_outcome(base, f"{base}/{d}", exclusions=tuple(globs))))
         # the regular expressions one after the other, each given alone, against the scan with an empty tuple of them:
@@ -313,6 +315,10 @@ def cases(draw):
             "*name*": "*" + name + "*", "*stem*": "*/" + stem + "*", "name*": name + "*", "*rel": "*" + rel,
             "absprefix*": "{BASE}/" + rel[: max(1, len(rel) - 1)] + "*", "*stem.py": "*" + stem + ".py", "name": name,
         }[form]
+        if draw(st.integers(0, 11)) == 0:
+            # a pattern that matches the root directory itself (and nothing below it): the whole root is excluded, from
+            # wherever the scan starts
+            g = draw(st.sampled_from(["*/" + tree["root"], "{BASE}", "*" + tree["root"]]))
         globs.append(g)
     tree["globs"] = globs
     regexes = []
